@@ -367,6 +367,12 @@ class Module:
                 for cname in self.mro(e.value.id):
                     if e.attr in self.consts.get(cname, {}):
                         return self.consts[cname][e.attr]
+            if e.attr in ('value', 'name') and isinstance(e.value, ast.Attribute) and isinstance(e.value.value, ast.Name) \
+                    and self.enum_members(e.value.value.id) is not None:
+                # EnumClass.MEMBER.value / .name: what the class body assigns to the member
+                mem = dict(self.enum_members(e.value.value.id))
+                if e.value.attr in mem:
+                    return e.value.attr if e.attr == 'name' else mem[e.value.attr]
             raise Unfoldable(norm(e))
         if isinstance(e, ast.BinOp):
             l, r = self.fold(e.left, scope, env), self.fold(e.right, scope, env)
@@ -451,6 +457,28 @@ class Module:
             if f is not None:
                 return f
         return None
+
+    def enum_members(self, cname):
+        """[(member name, value)] in definition order when `cname` is an enum.Enum class of this module whose members are assigned
+        folded constants (enum.auto(): 1, 2, ...); None when it is no such class"""
+        cd = self.classes.get(cname)
+        if cd is None or not any(norm(b) in ('enum.Enum', 'Enum', 'enum.IntEnum', 'IntEnum', 'enum.StrEnum', 'StrEnum') for b in cd.bases):
+            return None
+        out, auto = [], 0
+        for st in cd.body:
+            if isinstance(st, ast.Assign) and len(st.targets) == 1 and isinstance(st.targets[0], ast.Name) and not st.targets[0].id.startswith('_'):
+                if isinstance(st.value, ast.Call) and norm(st.value.func) in ('enum.auto', 'auto') and not st.value.args:
+                    auto += 1
+                    out.append((st.targets[0].id, auto))
+                    continue
+                try:
+                    v = self.fold(st.value, cname)
+                except Unfoldable:
+                    return None
+                if isinstance(v, int) and not isinstance(v, bool):
+                    auto = v
+                out.append((st.targets[0].id, v))
+        return out
 
     def class_const_node(self, cname, name):
         for c in self.mro(cname):
